@@ -406,7 +406,7 @@ def generate(rng, tier: str, i: int, prop: str, nested: bool = False) -> dict:
     small = n_pix <= 3000 and not big_hist
     if prop == "C12" and small:
         if sink == "mem" and f < (0.25 if tier == "quick" else 0.5):
-            scn["faults"] = {"mode": "enum_writes", "partial": rng.choice([0.0, 0.0, 0.5]),
+            scn["faults"] = {"mode": "enum_writes", "partial": rng.choice([0.0, 0.0, 0.5]), "err": rng.choice(seams.WRITE_ERRORS),
                              "retry_k": rng.randrange(1000)}
         elif sink == "path" and f < (0.5 if tier == "quick" else 0.8):
             scn["faults"] = {"mode": "fsize", "fracs": [rng.random() for _ in range(6)],
@@ -1332,7 +1332,7 @@ class SqwEngine(Engine):
         return "eof"
 
     def _one_write_fault(self, scn, ctx, fin, dec, trace, k, partial, retry):
-        sink = seams.SimBytesIO(ctx=ctx, fail_at=k, partial=partial)
+        sink = seams.SimBytesIO(ctx=ctx, fail_at=k, partial=partial, err=scn["faults"].get("err", "ENOSPC"))
         ctx.fault_configured("enospc_at_write_ordinal")
         keep: dict = {}
         exc = self._create(scn, ctx, sink, label=f"create_fault_k{k}", keep=keep if retry else None)
@@ -2010,7 +2010,7 @@ def _shrink(self, scn, violation=None):
         yield c
     if "write_k" in hint and s["faults"]["mode"] == "enum_writes":
         c = copy.deepcopy(s)
-        c["faults"] = {"mode": "write_k", "k": hint["write_k"], "partial": 0.0, "retry": False}
+        c["faults"] = {"mode": "write_k", "err": s["faults"].get("err", "ENOSPC"), "k": hint["write_k"], "partial": 0.0, "retry": False}
         yield c
     # 1. faults: enumerate -> the failing k is unknown here; try removing the plan
     if s["faults"]["mode"] != "none":
@@ -2021,7 +2021,7 @@ def _shrink(self, scn, violation=None):
             # binary-search style: replace the enumeration by single crash points
             for k in (0, 1, 2, 3, 5, 8, 13, 21, 34, 55, 89, 144, 233):
                 c = copy.deepcopy(s)
-                c["faults"] = {"mode": "write_k", "k": k, "partial": 0.0, "retry": False}
+                c["faults"] = {"mode": "write_k", "err": s["faults"].get("err", "ENOSPC"), "k": k, "partial": 0.0, "retry": False}
                 yield c
         if s["faults"]["mode"] == "fsize":
             for fr in s["faults"].get("fracs", []):
